@@ -690,7 +690,8 @@ def main(argv=None):
         level="other",
         rule="(a) one case per manager x {enter, exit, enter;exit, decorator, decorator with raising body}, depth and tracker symbolic; "
              "one case executing every well-nested forest of <= 3 (thorough 4) scopes over the three managers as context/decorator with "
-             "an exception at each position and all 4 initial settings; (b) one case per 3 programs run inside no_autodiff",
+             "an exception at each position and all 4 initial settings; (b) 18 programs run inside no_autodiff, and inside no_autodiff combined with mem_guard_on / mem_guard_off nested "
+             "inside or around it (4 scope stacks); (c) backward() called inside no_autodiff on each tensor of a graph recorded outside",
         explanation="(a) inductive step: the real __enter__/__exit__/__call__ run with `_depth` an unbounded z3 integer and `_depth_tracker` "
                     "a z3 array under the invariant keys=[0,depth); z3 discharges frame and restore obligations, from which well-nested "
                     "restoration follows by induction on paper; the bounded nesting run cross-checks the induction schema. (b) values of "
